@@ -552,6 +552,12 @@ impl CompactEndPositions {
         )
     }
 
+    /// Direct entry to the private constructor (the unboxed compact table).
+    #[doc(hidden)]
+    pub fn verif_try_build(positions: &[u32], text_len: usize) -> Option<Self> {
+        Self::try_build(positions, text_len)
+    }
+
     /// Direct entry to the private sampled select on the interest bits.
     #[doc(hidden)]
     pub fn verif_ib_select1_with_state(&self, k: usize) -> Option<(usize, usize, usize)> {
